@@ -1948,14 +1948,26 @@ class GroupBy:
                 n_selected = len(ilocs)
                 out_index = pd.RangeIndex(n_selected)
             else:
-                new_codes = [np.repeat(c, n)[keep] for c in self.result_index.codes]
-                new_codes.append(np.tile(np.arange(n), self.ngroups)[keep])
-                new_levels = [*self.result_index.levels, np.arange(n)]
-                out_index = pd.MultiIndex(
-                    codes=new_codes,
-                    levels=new_levels,
-                    names=[*self.result_index.names, None],
-                )[keep]
+                if keep.ndim == 1:
+                    # nth: at most one row per group, labelled by its group
+                    out_index = self.result_index[keep]
+                else:
+                    # head / tail: (group labels..., position within the group);
+                    # a single key has a flat result index: treat it as a one-level MultiIndex
+                    group_index = _ensure_multi_index(self.result_index)
+                    n_per_group = keep.shape[1]
+                    keep_flat = keep.ravel()
+                    new_codes = [
+                        np.repeat(c, n_per_group)[keep_flat] for c in group_index.codes
+                    ]
+                    new_codes.append(
+                        np.tile(np.arange(n_per_group), self.ngroups)[keep_flat]
+                    )
+                    out_index = pd.MultiIndex(
+                        codes=new_codes,
+                        levels=[*group_index.levels, np.arange(n_per_group)],
+                        names=[*group_index.names, None],
+                    )
 
         col_names = self._col_names_from_value_names(value_names)
 
